@@ -384,10 +384,34 @@ pub fn gen_model(d: &Data, r: &mut Rng) -> Model {
 }
 
 pub fn json_text(m: &Model, r: &mut Rng) -> String {
-    if r.chance(1, 2) {
-        serde_json::to_string_pretty(m).unwrap()
-    } else {
-        serde_json::to_string(m).unwrap()
+    match r.below(5) {
+        0 | 1 => serde_json::to_string_pretty(m).unwrap(),
+        2 => serde_json::to_string(m).unwrap(),
+        _ => {
+            // what another JSON writer might produce: keys in another order, an extra key the
+            // tool does not know, non-ASCII text as \uXXXX escapes
+            let mut v = serde_json::to_value(m).unwrap();
+            if r.chance(1, 2) {
+                v.as_object_mut().unwrap().insert("version".into(), serde_json::json!("0.6.1"));
+            }
+            let text = if r.chance(1, 2) { serde_json::to_string_pretty(&v).unwrap() } else { serde_json::to_string(&v).unwrap() };
+            if r.chance(1, 2) {
+                let mut out = String::new();
+                for ch in text.chars() {
+                    if ch.is_ascii() {
+                        out.push(ch);
+                    } else {
+                        let mut buf = [0u16; 2];
+                        for u in ch.encode_utf16(&mut buf) {
+                            out.push_str(&format!("\\u{:04x}", u));
+                        }
+                    }
+                }
+                out
+            } else {
+                text
+            }
+        }
     }
 }
 
@@ -471,6 +495,7 @@ pub fn gen_scn(d: &Data, r: &mut Rng, faulty: bool) -> Scn {
     }
     if r.chance(1, 2) {
         dirs.push("o".into());
+        dirs.push("o/deep er".into());
     }
     dirs.push("wd".into());
 
@@ -497,7 +522,13 @@ pub fn gen_scn(d: &Data, r: &mut Rng, faulty: bool) -> Scn {
             let reuse = out_counter > 1 && r.chance(1, 3);
             let k = if reuse { r.range(1, out_counter - 1) } else { out_counter };
             if has_o && r.chance(1, 2) {
-                format!("o/out{k}.{ext}")
+                if r.chance(1, 4) {
+                    format!("o/deep er/out{k}.{ext}")
+                } else {
+                    format!("o/out{k}.{ext}")
+                }
+            } else if r.chance(1, 6) {
+                format!("gen{k}.v2.{ext}")
             } else {
                 format!("gen{k}.{ext}")
             }
